@@ -656,6 +656,157 @@ func Route(w *load.World, c *core.Collector) {
 			}
 		}
 	}
+	// a request that names a shard goes to that shard's server, one that names a user to the
+	// user's: the key that was hashed for Dest is the very value stored in the request
+	nKey := 0
+	keyBad := map[string]string{}
+	keySeen := map[string]string{}
+	for _, f := range clusterFns(w) {
+		for _, b := range f.Blocks {
+			for _, in := range b.Instrs {
+				st, ok := in.(*ssa.Store)
+				if !ok {
+					continue
+				}
+				fa, ok := st.Addr.(*ssa.FieldAddr)
+				if !ok {
+					continue
+				}
+				var helperKey ssa.Value
+				if fieldOf(fa) != "cluster.RPCRequestArgs.Dest" {
+					// the routing part built by a helper of the package from one of its parameters:
+					// "RPCRequestArgs: c.argsFor(shardId)"
+					if ssax.TypeName(st.Val.Type()) != "cluster.RPCRequestArgs" {
+						continue
+					}
+					hc, isCall := st.Val.(*ssa.Call)
+					if !isCall || hc.Call.StaticCallee() == nil || !ssax.InModule(hc.Call.StaticCallee()) {
+						continue
+					}
+					g := hc.Call.StaticCallee()
+					for _, gb := range g.Blocks {
+						for _, gi := range gb.Instrs {
+							gs, ok := gi.(*ssa.Store)
+							if !ok {
+								continue
+							}
+							if gfa, ok := gs.Addr.(*ssa.FieldAddr); ok && fieldOf(gfa) == "cluster.RPCRequestArgs.Dest" {
+								if k := hashKeyOf(gs.Val, 0); k != nil {
+									if prm, ok := peelToParam(k).(*ssa.Parameter); ok {
+										for i, q := range g.Params {
+											if q == prm && i < len(hc.Call.Args) {
+												helperKey = hc.Call.Args[i]
+											}
+										}
+									}
+								}
+							}
+						}
+					}
+					if helperKey == nil {
+						continue
+					}
+				}
+				outer, ok := fa.X.(*ssa.FieldAddr)
+				if helperKey != nil {
+					outer, ok = fa, true
+				}
+				if !ok {
+					// built in a temporary that is copied into the request as a whole
+					if tmp, isAl := fa.X.(*ssa.Alloc); isAl {
+						for _, r := range *tmp.Referrers() {
+							ld, isLd := r.(*ssa.UnOp)
+							if !isLd || ld.Op != token.MUL {
+								continue
+							}
+							for _, rr := range *ld.Referrers() {
+								if s2, isSt := rr.(*ssa.Store); isSt && s2.Val == ssa.Value(ld) {
+									if ofa, isFa := s2.Addr.(*ssa.FieldAddr); isFa {
+										outer, ok = ofa, true
+									}
+								}
+							}
+						}
+					}
+				}
+				if !ok {
+					continue
+				}
+				rst := ssax.StructOf(outer.X.Type())
+				if rst == nil {
+					continue
+				}
+				by := ""
+				for i := 0; i < rst.NumFields(); i++ {
+					if rst.Field(i).Name() == "ShardId" {
+						by = "ShardId"
+					}
+				}
+				if by == "" {
+					for i := 0; i < rst.NumFields(); i++ {
+						if rst.Field(i).Name() == "UserId" {
+							by = "UserId"
+						}
+					}
+				}
+				if by == "" {
+					continue
+				}
+				key := hashKeyOf(st.Val, 0)
+				viaParam := false
+				if helperKey != nil {
+					key = helperKey
+				}
+				if key == nil {
+					// computed by the caller and handed to a literal together with the id
+					if av := callerArg(w, st.Val); av != nil {
+						key, viaParam = hashKeyOf(av, 0), true
+					}
+				}
+				if key == nil {
+					continue
+				}
+				// the value stored into that field of the same request
+				var named ssa.Value
+				for _, r := range *outer.X.Referrers() {
+					if ofa, ok := r.(*ssa.FieldAddr); ok && rst.Field(ofa.Field).Name() == by {
+						for _, rr := range *ofa.Referrers() {
+							if s2, ok := rr.(*ssa.Store); ok && s2.Addr == ssa.Value(ofa) {
+								named = s2.Val
+							}
+						}
+					}
+				}
+				if named == nil {
+					continue
+				}
+				if viaParam {
+					if av := callerArg(w, named); av != nil {
+						named = av
+					}
+				}
+				nKey++
+				k := "dest-key:" + load.FnKey(f)
+				keySeen[k] = w.At(in)
+				kp, _ := ssax.Path(key)
+				np, _ := ssax.Path(named)
+				if !(key == named || (kp != "" && kp == np) || peelToParam(key) == peelToParam(named)) {
+					keyBad[k] = fmt.Sprintf("%s: the request names %s %s but its destination was hashed from %s: it is sent to a server that does not own it", w.At(in), by, describeVal(named), describeVal(key))
+				}
+			}
+		}
+	}
+	for k, at := range keySeen {
+		if d, bad := keyBad[k]; bad {
+			c.Add("ROUTE", k, core.Violation, at, d, "C13", "C17", "C15")
+		} else {
+			c.Add("ROUTE", k, core.OK, at, "", "C13", "C17", "C15")
+		}
+	}
+	c.Count("dest_keys_matched", nKey)
+	if nKey < 5 {
+		c.Add("ROUTE", "anchor:dest-keys", core.Undecided, "", fmt.Sprintf("matched %d destination keys with the id their request names, expected at least 5", nKey), "C13", "C17")
+	}
 	c.Count("dest_initialisers", nDest)
 	if nDest < 2 {
 		c.Add("ROUTE", "anchor:dest", core.Undecided, "", fmt.Sprintf("found %d Dest initialisers, expected at least 2", nDest), "C13", "C17")
@@ -754,6 +905,90 @@ func Fanout(w *load.World, c *core.Collector) {
 			c.Add("FANOUT", "complete-flag:"+name, core.OK, w.Position(f.Pos()), "", props...)
 		} else {
 			c.Add("FANOUT", "complete-flag:"+name, core.Violation, w.Position(f.Pos()), `"not found" may be reported although not every shard answered`, props...)
+		}
+	}
+	// the merged results of several shards are sorted before they are returned: every success
+	// return is behind a sort of the results, except where the collection has at most one shard
+	if f := findFn(w, "(*cluster.ClusterNode).SearchPoints"); f != nil {
+		var banned []ssax.Edge
+		nSort := 0
+		for _, b := range f.Blocks {
+			for _, in := range b.Instrs {
+				call, ok := in.(*ssa.Call)
+				if !ok || len(call.Call.Args) == 0 || !isSearchResultSlice(call.Call.Args[0].Type()) {
+					continue
+				}
+				g := call.Call.StaticCallee()
+				if g == nil || !strings.Contains(g.Name(), "Sort") {
+					continue
+				}
+				nSort++
+				for i := range b.Succs {
+					banned = append(banned, ssax.Edge{From: b, Succ: i})
+				}
+			}
+			ifi, ok := b.Instrs[len(b.Instrs)-1].(*ssa.If)
+			if !ok {
+				continue
+			}
+			bo, neg, ok := condBinOp(ifi.Cond, 0)
+			if !ok {
+				continue
+			}
+			isShardCount := func(v ssa.Value) bool {
+				call, ok := v.(*ssa.Call)
+				if !ok {
+					return false
+				}
+				bi, ok := call.Call.Value.(*ssa.Builtin)
+				if !ok || bi.Name() != "len" {
+					return false
+				}
+				p, _ := ssax.Path(call.Call.Args[0])
+				return strings.HasSuffix(strings.TrimSuffix(p, "*"), ".ShardIds")
+			}
+			x, y, op := bo.X, bo.Y, bo.Op
+			if isShardCount(y) {
+				x, y = y, x
+				op = map[token.Token]token.Token{token.LSS: token.GTR, token.GTR: token.LSS, token.LEQ: token.GEQ, token.GEQ: token.LEQ, token.EQL: token.EQL, token.NEQ: token.NEQ}[op]
+			}
+			k, isC := ssax.ConstInt(y)
+			if !isShardCount(x) || !isC {
+				continue
+			}
+			// the edge on which the count is at most one
+			single := -1
+			switch {
+			case op == token.GTR && k == 1, op == token.GEQ && k == 2, op == token.NEQ && k == 1:
+				single = 1
+			case op == token.LEQ && k == 1, op == token.LSS && k == 2, op == token.EQL && k == 1:
+				single = 0
+			}
+			if single < 0 {
+				continue
+			}
+			if neg {
+				single = 1 - single
+			}
+			banned = append(banned, ssax.Edge{From: b, Succ: single})
+		}
+		bad := ""
+		for _, ex := range successExits(f) {
+			r, ok := ex.In.(*ssa.Return)
+			if !ok || len(r.Results) == 0 || ssax.IsNilConst(r.Results[0]) {
+				continue
+			}
+			if reachableWithoutEdges(f, banned, ex.In.Block()) {
+				bad = w.At(ex.In)
+			}
+		}
+		switch {
+		case nSort == 0:
+			c.Add("FANOUT", "merge-sorted", core.Violation, w.Position(f.Pos()), "the results of the shards are never sorted after being merged", props...)
+		case bad != "":
+			c.Add("FANOUT", "merge-sorted", core.Violation, bad, "with more than one shard the merged results can be returned without having been sorted: the order depends on which shard answered first", props...)
+		default:
+			c.Add("FANOUT", "merge-sorted", core.OK, w.Position(f.Pos()), "", props...)
 		}
 	}
 	// SearchPoints truncation bound is the limit the request carried on entry
@@ -1804,6 +2039,32 @@ func Lifecycle(w *load.World, c *core.Collector) {
 			}
 		}
 	}
+	// an entry leaves the registry only once its shard is closed: on every path to a delete of
+	// shardStore the shard pointer was cleared (after Close), or seen to be nil, or there is no
+	// entry. An open shard that is unregistered gets opened a second time by the next request.
+	for _, f := range clusterFns(w) {
+		for _, b := range f.Blocks {
+			for _, in := range b.Instrs {
+				call, ok := in.(*ssa.Call)
+				if !ok {
+					continue
+				}
+				bi, ok := call.Call.Value.(*ssa.Builtin)
+				if !ok || bi.Name() != "delete" {
+					continue
+				}
+				if p, _ := ssax.Path(call.Call.Args[0]); !strings.Contains(p, "shardStore") {
+					continue
+				}
+				key := "unregister-closed:" + load.FnKey(f)
+				if shardClosedAt(w, f, wcPos{pred: b, succ: -1, at: call}, 0) {
+					c.Add("LIFECYCLE", key, core.OK, w.At(in), "", props...)
+				} else {
+					c.Add("LIFECYCLE", key, core.Violation, w.At(in), "a shard can be taken out of the registry while its pointer is still set (before it was closed and cleared): the next request loads the same shard file a second time while this one is still open", props...)
+				}
+			}
+		}
+	}
 	// every send on doneCh is non-blocking
 	for _, f := range clusterFns(w) {
 		for _, b := range f.Blocks {
@@ -1908,12 +2169,14 @@ func RetryLoop(w *load.World, c *core.Collector) {
 // be tested before it is used.
 func shardUsesGuarded(w *load.World, f *ssa.Function, v ssa.Value, depth int) (used, guarded bool) {
 	var useBlocks []*ssa.BasicBlock
+	var useInstrs []ssa.Instruction
 	returned := map[int]bool{}
 	for _, r := range *v.Referrers() {
 		switch x := r.(type) {
 		case *ssa.BinOp:
 			if !(ssax.IsNilConst(x.X) || ssax.IsNilConst(x.Y)) {
 				useBlocks = append(useBlocks, x.Block())
+				useInstrs = append(useInstrs, x)
 			}
 		case *ssa.DebugRef:
 		case *ssa.Return:
@@ -1924,8 +2187,10 @@ func shardUsesGuarded(w *load.World, f *ssa.Function, v ssa.Value, depth int) (u
 			}
 		case *ssa.Phi:
 			useBlocks = append(useBlocks, x.Block())
+			useInstrs = append(useInstrs, x)
 		default:
 			useBlocks = append(useBlocks, r.Block())
+			useInstrs = append(useInstrs, r)
 		}
 	}
 	if len(useBlocks) == 0 && len(returned) == 0 {
@@ -1933,7 +2198,7 @@ func shardUsesGuarded(w *load.World, f *ssa.Function, v ssa.Value, depth int) (u
 	}
 	p, _ := ssax.Path(v)
 	guarded = true
-	for _, ub := range useBlocks {
+	for ui, ub := range useBlocks {
 		okUse := false
 		for _, bb := range f.Blocks {
 			ifi, ok := bb.Instrs[len(bb.Instrs)-1].(*ssa.If)
@@ -1955,7 +2220,9 @@ func shardUsesGuarded(w *load.World, f *ssa.Function, v ssa.Value, depth int) (u
 			if bo.Op == token.EQL {
 				edge = 1
 			}
-			if ssax.OnlyViaEdge(bb, edge, ub) {
+			// the test and the use belong to one critical section: the shard lock is not
+			// released (and taken again) in between, or the pointer may have been cleared meanwhile
+			if ssax.OnlyViaEdge(bb, edge, ub) && !shardLockReleasedBetween(f, bb, bb.Succs[edge], useInstrs[ui]) {
 				okUse = true
 			}
 		}
@@ -2422,4 +2689,531 @@ func phaseTable(w *load.World, f *ssa.Function, want ...string) (site ssa.Instru
 		}
 	}
 	return nil, "", false
+}
+
+// shardLockReleasedBetween: an explicit release of a loadedShard lock lies on a path from the
+// block from to the instruction use.
+func shardLockReleasedBetween(f *ssa.Function, test, from *ssa.BasicBlock, use ssa.Instruction) bool {
+	// reachability that does not go through the test again (a loop that locks, tests, uses and
+	// unlocks once per iteration is fine)
+	reaches := func(a, b *ssa.BasicBlock) bool {
+		seen := map[*ssa.BasicBlock]bool{test: true}
+		var dfs func(x *ssa.BasicBlock) bool
+		dfs = func(x *ssa.BasicBlock) bool {
+			if x == b {
+				return true
+			}
+			if seen[x] {
+				return false
+			}
+			seen[x] = true
+			for _, sc := range x.Succs {
+				if dfs(sc) {
+					return true
+				}
+			}
+			return false
+		}
+		if a == b {
+			return false
+		}
+		for _, sc := range a.Succs {
+			if dfs(sc) {
+				return true
+			}
+		}
+		return false
+	}
+	for _, b := range f.Blocks {
+		for _, in := range b.Instrs {
+			call, ok := in.(*ssa.Call)
+			if !ok {
+				continue
+			}
+			g := call.Call.StaticCallee()
+			if g == nil || (g.Name() != "Unlock" && g.Name() != "RUnlock") || len(call.Call.Args) == 0 {
+				continue
+			}
+			fa, ok := call.Call.Args[0].(*ssa.FieldAddr)
+			if !ok || fieldOf(fa) != "cluster.loadedShard.mu" {
+				continue
+			}
+			after := b == from || (from != test && reaches(from, b))
+			if !after {
+				continue
+			}
+			if b == use.Block() {
+				if ssax.Precedes(call, use) {
+					return true
+				}
+				continue
+			}
+			if b != test && reaches(b, use.Block()) {
+				return true
+			}
+		}
+	}
+	return false
+}
+
+// shardClosedEvents: the events in fn after which the shard of the registry entry at hand is
+// closed: its pointer was cleared, or seen to be nil, or there is no entry; a call of a helper
+// of the package all of whose returns are behind such an event counts as one.
+func shardClosedEvents(fn *ssa.Function, depth int) *wcEvents {
+	ev := &wcEvents{}
+	for _, bb := range fn.Blocks {
+		for _, ii := range bb.Instrs {
+			switch x := ii.(type) {
+			case *ssa.Store:
+				if !ssax.IsNilConst(x.Val) {
+					continue
+				}
+				if fa, ok := x.Addr.(*ssa.FieldAddr); ok && fieldOf(fa) == "cluster.loadedShard.shard" {
+					ev.instrs = append(ev.instrs, x)
+				}
+			case *ssa.Call:
+				g := x.Call.StaticCallee()
+				if g == nil || depth > 1 || !ssax.InModule(g) || load.PkgPath(g) != load.PkgPath(fn) || len(g.Blocks) == 0 || g == fn {
+					continue
+				}
+				gev := shardClosedEvents(g, depth+1)
+				if gev.empty() {
+					continue
+				}
+				all, n := true, 0
+				for _, gb := range g.Blocks {
+					if r, isRet := gb.Instrs[len(gb.Instrs)-1].(*ssa.Return); isRet {
+						n++
+						if !gev.covered(g, wcPos{pred: gb, succ: -1, at: r}) {
+							all = false
+						}
+					}
+				}
+				if all && n > 0 {
+					ev.instrs = append(ev.instrs, x)
+				}
+			}
+		}
+		ifi, ok := bb.Instrs[len(bb.Instrs)-1].(*ssa.If)
+		if !ok {
+			continue
+		}
+		cond, neg := ifi.Cond, false
+		if u, ok := cond.(*ssa.UnOp); ok && u.Op == token.NOT {
+			cond, neg = u.X, true
+		}
+		// the shard pointer is nil
+		if bo, ok := cond.(*ssa.BinOp); ok && (bo.Op == token.EQL || bo.Op == token.NEQ) && (ssax.IsNilConst(bo.X) || ssax.IsNilConst(bo.Y)) {
+			other := bo.X
+			if ssax.IsNilConst(bo.X) {
+				other = bo.Y
+			}
+			if ld, ok := other.(*ssa.UnOp); ok && ld.Op == token.MUL {
+				if fa, ok := ld.X.(*ssa.FieldAddr); ok && fieldOf(fa) == "cluster.loadedShard.shard" {
+					s := 0
+					if (bo.Op == token.NEQ) != neg {
+						s = 1
+					}
+					ev.edges = append(ev.edges, ssax.Edge{From: bb, Succ: s})
+				}
+			}
+		}
+		// no entry under the directory
+		if ex, ok := cond.(*ssa.Extract); ok && ex.Index == 1 {
+			if lk, ok := ex.Tuple.(*ssa.Lookup); ok {
+				if p, _ := ssax.Path(lk.X); strings.Contains(p, "shardStore") {
+					s := 1
+					if neg {
+						s = 0
+					}
+					ev.edges = append(ev.edges, ssax.Edge{From: bb, Succ: s})
+				}
+			}
+		}
+	}
+	return ev
+}
+
+// shardClosedAt: the position is behind a closed-event in fn, or fn is a helper and
+// every call of it is.
+func shardClosedAt(w *load.World, fn *ssa.Function, p wcPos, depth int) bool {
+	if shardClosedEvents(fn, 0).covered(fn, p) {
+		return true
+	}
+	if depth > 1 {
+		return false
+	}
+	sites := staticCallSites(w, fn)
+	if len(sites) == 0 {
+		return false
+	}
+	for _, site := range sites {
+		// only a synchronous call carries the caller's knowledge over (not go, not defer)
+		in, ok := site.(*ssa.Call)
+		if !ok || !shardClosedAt(w, site.Parent(), wcPos{pred: site.Block(), succ: -1, at: in}, depth+1) {
+			return false
+		}
+	}
+	return true
+}
+
+// hashKeyOf: v is RendezvousHash(key, ...)[0] (directly, or through a helper of the package
+// that returns that for one of its parameters): the key.
+func hashKeyOf(v ssa.Value, depth int) ssa.Value {
+	if depth > 3 {
+		return nil
+	}
+	switch x := v.(type) {
+	case *ssa.UnOp:
+		if x.Op == token.MUL {
+			if ia, ok := x.X.(*ssa.IndexAddr); ok {
+				return hashKeyOf(ia.X, depth+1)
+			}
+			if al, ok := x.X.(*ssa.Alloc); ok {
+				if sv := ssax.SingleStore(al); sv != nil {
+					return hashKeyOf(sv, depth+1)
+				}
+			}
+		}
+	case *ssa.Index:
+		return hashKeyOf(x.X, depth+1)
+	case *ssa.Call:
+		g := x.Call.StaticCallee()
+		if g == nil {
+			return nil
+		}
+		if load.FnKey(g) == "cluster.RendezvousHash" {
+			return x.Call.Args[0]
+		}
+		if !ssax.InModule(g) {
+			return nil
+		}
+		// a helper: every return is the hash of one and the same parameter
+		var pidx = -1
+		for _, b := range g.Blocks {
+			r, ok := b.Instrs[len(b.Instrs)-1].(*ssa.Return)
+			if !ok || len(r.Results) == 0 {
+				continue
+			}
+			k := hashKeyOf(r.Results[0], depth+1)
+			if k == nil {
+				return nil
+			}
+			p, ok := peelToParam(k).(*ssa.Parameter)
+			if !ok {
+				return nil
+			}
+			for i, q := range g.Params {
+				if q == p {
+					if pidx >= 0 && pidx != i {
+						return nil
+					}
+					pidx = i
+				}
+			}
+		}
+		if pidx >= 0 && pidx < len(x.Call.Args) {
+			return x.Call.Args[pidx]
+		}
+	}
+	return nil
+}
+
+func describeVal(v ssa.Value) string {
+	if p, _ := ssax.Path(v); p != "" {
+		return p
+	}
+	return v.Name()
+}
+
+// ------------------------------------------------------------- REPLYFLAGS
+//
+// An RPC handler that reports an outcome through a boolean field of its reply
+// (the request "succeeded" as a call, error == nil) relies on every caller to
+// look at that field: a caller that only tests the error takes "collection not
+// found" or "quota reached" for success and goes on with an empty answer.
+// For every bool field of a reply type that some handler sets to true, every
+// direct call of that handler elsewhere in the package reads the field from the
+// reply it passed.
+func ReplyFlags(w *load.World, c *core.Collector) {
+	props := []string{"C15", "C17"}
+	type flag struct {
+		handler *ssa.Function
+		st      *types.Struct
+		field   int
+	}
+	var flags []flag
+	for _, f := range clusterFns(w) {
+		if !strings.HasPrefix(f.Name(), "RPC") || len(f.Params) != 3 {
+			continue
+		}
+		reply := f.Params[2]
+		rst := ssax.StructOf(reply.Type())
+		if rst == nil {
+			continue
+		}
+		seen := map[int]bool{}
+		var visit func(g *ssa.Function, depth int)
+		visit = func(g *ssa.Function, depth int) {
+			for _, b := range g.Blocks {
+				for _, in := range b.Instrs {
+					st, ok := in.(*ssa.Store)
+					if !ok {
+						continue
+					}
+					fa, ok := st.Addr.(*ssa.FieldAddr)
+					if !ok || ssax.StructOf(fa.X.Type()) != rst {
+						continue
+					}
+					if cb, isC := ssax.ConstBool(st.Val); isC && cb {
+						seen[fa.Field] = true
+					}
+				}
+			}
+			for _, lit := range g.AnonFuncs {
+				if depth < 3 {
+					visit(lit, depth+1)
+				}
+			}
+		}
+		visit(f, 0)
+		for i := range seen {
+			flags = append(flags, flag{f, rst, i})
+		}
+	}
+	sort.Slice(flags, func(i, j int) bool {
+		if flags[i].handler.Name() != flags[j].handler.Name() {
+			return flags[i].handler.Name() < flags[j].handler.Name()
+		}
+		return flags[i].field < flags[j].field
+	})
+	c.Count("reply_flags", len(flags))
+	if len(flags) < 3 {
+		c.Add("REPLYFLAGS", "anchor", core.Undecided, "", fmt.Sprintf("found %d reply flags set by RPC handlers, expected at least 3", len(flags)), props...)
+	}
+	for _, fl := range flags {
+		name := fl.st.Field(fl.field).Name()
+		key := "read:" + fl.handler.Name() + "." + name
+		bad := ""
+		sites := 0
+		for _, site := range staticCallSites(w, fl.handler) {
+			call, ok := site.(*ssa.Call)
+			if !ok || site.Parent() == fl.handler || len(call.Call.Args) < 3 {
+				continue
+			}
+			sites++
+			// the reply variable handed in
+			read := false
+			var scan func(addr ssa.Value, depth int)
+			scan = func(addr ssa.Value, depth int) {
+				if addr.Referrers() == nil || depth > 2 {
+					return
+				}
+				for _, r := range *addr.Referrers() {
+					switch x := r.(type) {
+					case *ssa.FieldAddr:
+						if x.Field != fl.field || ssax.StructOf(x.X.Type()) != fl.st {
+							continue
+						}
+						for _, rr := range *x.Referrers() {
+							if ld, ok := rr.(*ssa.UnOp); ok && ld.Op == token.MUL && (ld.Block() == call.Block() && ssax.Precedes(call, ld) || ssax.Reaches(call.Block(), ld.Block())) {
+								read = true
+							}
+						}
+					case *ssa.UnOp:
+						// the whole reply is copied out (returned, stored): its reader is elsewhere
+						if x.Op == token.MUL && (x.Block() == call.Block() && ssax.Precedes(call, x) || ssax.Reaches(call.Block(), x.Block())) {
+							if _, isStruct := x.Type().Underlying().(*types.Struct); isStruct {
+								read = true
+							}
+						}
+					case *ssa.Field:
+						if x.Field == fl.field {
+							read = true
+						}
+					}
+				}
+			}
+			scan(call.Call.Args[2], 0)
+			if !read {
+				bad = w.At(call)
+			}
+		}
+		switch {
+		case bad != "":
+			c.Add("REPLYFLAGS", key, core.Violation, bad, fmt.Sprintf("%s reports an outcome by setting %s in its reply and returning nil, but this caller never reads %s: it takes the outcome for success and goes on with an empty reply", fl.handler.Name(), name, name), props...)
+		default:
+			c.Add("REPLYFLAGS", key, core.OK, w.Position(fl.handler.Pos()), fmt.Sprintf("%d call sites", sites), props...)
+		}
+	}
+}
+
+// ------------------------------------------------------------------ TXRMW
+//
+// A record that is read, changed and written back must be read in the write
+// transaction that stores it: the node database admits one writer at a time,
+// so a read-modify-write inside one Write callback is atomic, while a value
+// decoded in one transaction and stored from another overwrites whatever a
+// concurrent request stored in between (two shard creations for one
+// collection: one shard id is lost, its points become unreachable).
+// For every function that runs several storage callbacks: no Put in one
+// callback stores a value computed from a variable that another callback
+// decoded a record into.
+func TxRMW(w *load.World, c *core.Collector) {
+	props := []string{"C17", "C15"}
+	byParent := map[*ssa.Function][]txCallback{}
+	for _, cb := range txCallbacks(w) {
+		if !strings.HasSuffix(load.PkgPath(cb.Fn), "/cluster") || cb.Fn.Parent() == nil {
+			continue
+		}
+		byParent[cb.Fn.Parent()] = append(byParent[cb.Fn.Parent()], cb)
+	}
+	bindingOf := func(lit *ssa.Function, fv *ssa.FreeVar) ssa.Value {
+		idx := -1
+		for i, x := range lit.FreeVars {
+			if x == fv {
+				idx = i
+			}
+		}
+		p := lit.Parent()
+		if idx < 0 || p == nil {
+			return nil
+		}
+		for _, b := range p.Blocks {
+			for _, in := range b.Instrs {
+				if mc, ok := in.(*ssa.MakeClosure); ok && mc.Fn == lit && idx < len(mc.Bindings) {
+					return mc.Bindings[idx]
+				}
+			}
+		}
+		return nil
+	}
+	n := 0
+	var parents []*ssa.Function
+	for p := range byParent {
+		parents = append(parents, p)
+	}
+	sort.Slice(parents, func(i, j int) bool { return load.FnKey(parents[i]) < load.FnKey(parents[j]) })
+	for _, p := range parents {
+		cbs := byParent[p]
+		hasWrite := false
+		for _, cb := range cbs {
+			if cb.Write {
+				hasWrite = true
+			}
+		}
+		if !hasWrite {
+			continue
+		}
+		n++
+		key := "same-transaction:" + load.FnKey(p)
+		// cells decoded per callback
+		decoded := map[ssa.Value]*ssa.Function{}
+		for _, cb := range cbs {
+			for _, b := range cb.Fn.Blocks {
+				for _, in := range b.Instrs {
+					call, ok := in.(*ssa.Call)
+					if !ok || call.Call.StaticCallee() == nil || !strings.Contains(call.Call.StaticCallee().Name(), "Unmarshal") || len(call.Call.Args) < 2 {
+						continue
+					}
+					dst := call.Call.Args[1]
+					if mi, ok := dst.(*ssa.MakeInterface); ok {
+						dst = mi.X
+					}
+					if fv, ok := dst.(*ssa.FreeVar); ok {
+						if bnd := bindingOf(cb.Fn, fv); bnd != nil {
+							decoded[bnd] = cb.Fn
+						}
+					}
+				}
+			}
+		}
+		bad := ""
+		for _, cb := range cbs {
+			if !cb.Write {
+				continue
+			}
+			for _, b := range cb.Fn.Blocks {
+				for _, in := range b.Instrs {
+					call, ok := in.(*ssa.Call)
+					if !ok || !call.Call.IsInvoke() || call.Call.Method.Name() != "Put" || len(call.Call.Args) < 2 {
+						continue
+					}
+					seen := map[ssa.Value]bool{}
+					var flows func(v ssa.Value, lit *ssa.Function, depth int) *ssa.Function
+					flows = func(v ssa.Value, lit *ssa.Function, depth int) *ssa.Function {
+						if v == nil || seen[v] || depth > 12 {
+							return nil
+						}
+						seen[v] = true
+						if from, ok := decoded[v]; ok && from != cb.Fn {
+							return from
+						}
+						switch x := v.(type) {
+						case *ssa.FreeVar:
+							if lit != nil {
+								if bnd := bindingOf(lit, x); bnd != nil {
+									return flows(bnd, lit.Parent(), depth+1)
+								}
+							}
+							return nil
+						case *ssa.Alloc:
+							// what is stored into the variable
+							for _, r := range *x.Referrers() {
+								if st, ok := r.(*ssa.Store); ok && st.Addr == ssa.Value(x) {
+									if f := flows(st.Val, lit, depth+1); f != nil {
+										return f
+									}
+								}
+							}
+							return nil
+						}
+						if in, ok := v.(ssa.Instruction); ok {
+							for _, op := range in.Operands(nil) {
+								if *op == nil {
+									continue
+								}
+								if f := flows(*op, lit, depth+1); f != nil {
+									return f
+								}
+							}
+						}
+						return nil
+					}
+					if from := flows(call.Call.Args[1], cb.Fn, 0); from != nil {
+						bad = fmt.Sprintf("%s: the value stored here is computed from a record that was decoded in another transaction (%s): a concurrent change of the record between the two transactions is overwritten", w.At(call), w.Position(from.Pos()))
+					}
+				}
+			}
+		}
+		if bad != "" {
+			c.Add("TXRMW", key, core.Violation, w.Position(p.Pos()), bad, props...)
+		} else {
+			c.Add("TXRMW", key, core.OK, w.Position(p.Pos()), "", props...)
+		}
+	}
+	c.Count("functions_with_node_db_writes", n)
+	if n < 3 {
+		c.Add("TXRMW", "anchor", core.Undecided, "", fmt.Sprintf("found %d cluster functions that run a write transaction on the node database, expected at least 3", n), props...)
+	}
+}
+
+// callerArg: v is a parameter of a function with exactly one static call site: the argument there.
+func callerArg(w *load.World, v ssa.Value) ssa.Value {
+	p, ok := peelToParam(v).(*ssa.Parameter)
+	if !ok {
+		return nil
+	}
+	fn := p.Parent()
+	idx := -1
+	for i, q := range fn.Params {
+		if q == p {
+			idx = i
+		}
+	}
+	sites := staticCallSites(w, fn)
+	if idx < 0 || len(sites) != 1 || idx >= len(sites[0].Common().Args) {
+		return nil
+	}
+	return sites[0].Common().Args[idx]
 }
